@@ -36,6 +36,9 @@ def plan(tier, seed):
             continue
         for mode in modes:
             cases.append({"reaction": {"kind": "fixture", "name": name}, "mode": mode, "seed": int(rng.integers(1 << 30)), "cost": 6.0 if name.endswith(".can") else 3.0})
+    for k in range(30 if tier == "quick" else 400):
+        cases.append({"reaction": {"kind": "synth_multi", "seed": int(rng.integers(1 << 30)), "formalism": ["helicity", "canonical-helicity"][k % 2]},
+                      "mode": k % 4, "seed": int(rng.integers(1 << 30)), "cost": 2.5})
     n_syn = 90 if tier == "quick" else 1500
     for k in range(n_syn):
         cases.append({"reaction": {"kind": "synth", "seed": int(rng.integers(1 << 30)), "formalism": ["helicity", "canonical-helicity"][k % 2],
